@@ -20,7 +20,7 @@ LEVEL_TEXT = {
     'C06': _p('Ghost-index contracts on the append / replace / extend mutators: every container size, every index, every other element unchanged.', 'DESIGN.md 4/C06'),
     'C07': _p('Outcome contract (must-refuse / must-accept regions) of the frame and column adders, for every object state.', 'DESIGN.md 4/C07'),
     'C08': _p('Freshness / separation contracts on the functions that store frames.', 'DESIGN.md 4/C08'),
-    'C09': _p('Contracts of the parameter/group mutators and of the shape predicate over mathematical products.', 'DESIGN.md 4/C09'),
+    'C09': _p('Contracts of the parameter/group mutators and of the shape predicate over mathematical products; replace-in-place / append of Group::parameter by loop contract (thorough) and by a bounded unit (quick, not counted).', 'DESIGN.md 4/C09'),
     'C10': _p('Exceptional postcondition "refused => unchanged" on every mutator under contract.', 'DESIGN.md 4/C10'),
     'C11': _p('Accessor contracts for every 64-bit index; first-match look-ups by loop contract.', 'DESIGN.md 4/C11'),
     'C12': _p('Full-domain proofs of the byte-assembly kernels and fixed-width codecs (every bit pattern, symbolically).', 'DESIGN.md 4/C12'),
